@@ -320,7 +320,16 @@ def r5_allow_reaches_the_wire(ctx):
     ctx.check(R, "error-headers-moved-wholesale", w, "into_response transfers self.headers as a whole: %s (a per-element copy of an owned HeaderMap drops all but the first value of a repeated name such as Allow)" % w, ir)
 
 
-RULES = [("C04.R5", r5_allow_reaches_the_wire), ("C04.R1", r1_decision), ("C04.R2", r2_allow_truthful), ("C04.R3", r3_allow_only_on_405), ("C04.R4", r4_no_handler)]
+def r6_decision_on_the_node_lookup_serves(ctx):
+    """`the same path ... is served for some other method`: the node whose method table decides 404 / 405 / Allow is the node a successful
+    lookup of that path would use, trailing-wildcard step included.  This is C01.R3, re-evaluated here (adversary change C04-G skipped
+    that step when the parent node had a handler for the request's method, so lookup and the 405 tail looked at different nodes)."""
+    from . import c01
+    from .lib_c01 import Renamed
+    c01.r3_walk_integrity(Renamed(ctx, "C04.R6", "one walk decides the node for success and for the 404/405 answer alike: every path out of the exhausted walk takes the trailing-wildcard step before any method table is read"))
+
+
+RULES = [("C04.R6", r6_decision_on_the_node_lookup_serves), ("C04.R5", r5_allow_reaches_the_wire), ("C04.R1", r1_decision), ("C04.R2", r2_allow_truthful), ("C04.R3", r3_allow_only_on_405), ("C04.R4", r4_no_handler)]
 
 _ANY = "        if node.methods.values().any(|handlers| {\n            find_handler_matching_version(handlers, version).is_some()\n        }) {"
 _LOOP = "            for (allowed, handlers) in node.methods.iter() {\n                // Only list methods that are actually served at this version.\n                if find_handler_matching_version(handlers, version).is_some() {\n                    err.add_header(http::header::ALLOW, allowed)\n                        .expect(\"method should be a valid allow header\");\n                }\n            }"
@@ -425,3 +434,4 @@ SELFTEST += [
 ]
 
 LEVEL_TEXT += " Also (R5): add_header appends and HttpError::into_response moves the error's header map into the response as a whole, so every collected Allow value reaches the wire."
+LEVEL_TEXT += ' Also (R6 = C01.R3): the 404/405 decision reads the method table of the node the walk (trailing-wildcard step included) ended on.'
